@@ -5,6 +5,7 @@ import (
 	"go/constant"
 	"go/token"
 	"go/types"
+	"os"
 	"regexp"
 	"sort"
 	"strconv"
@@ -730,6 +731,9 @@ func (w *World) firstMatchByInterpretation(fn *ssa.Function, test string) (ok bo
 			}
 			out := ci.run(fn, []cval{arg}, 0)
 			if out.status != "return" || len(out.vals) != 1 {
+				if os.Getenv("VERIF_CONCR_DEBUG") != "" {
+					fmt.Printf("CONCR %s k=%d pat=%d: %s %s\n", fn.Name(), k, pat, out.status, out.why)
+				}
 				if k == 0 && arg.kind == cNilPtr {
 					// try the empty non-nil slice form as well before giving up
 				}
